@@ -580,6 +580,16 @@ void run_world(const Case &c)
   {
     w->heap.died.clear();
     w->last_ret = 9;
+    if (Fam::world == 0 && !sts[k].value("dev", "").empty() && g_shm->dev_crashes >= 2 &&
+        sts[k]["expDev"].size() == 1 && sts[k]["expDev"][0]["died"].empty())
+    {
+      // a step whose deviation is "the process may die, nothing else changes" and that did kill the
+      // process twice already: truncate here, exactly as after an observed deviating step
+      g_shm->skipped_known_crash++;
+      g_shm->truncated_dev++;
+      stopped = true;
+      break;
+    }
     if (Fam::world == 0)
     {
       g_shm->ndied = 0;
